@@ -174,6 +174,9 @@ func runC06(h *H) {
 	procsList := []int{1, 2, 3, 4, 8, 16}
 	old := runtime.GOMAXPROCS(0)
 	defer runtime.GOMAXPROCS(old)
+	var prevC *sparse.Matrix
+	var prevP, prevRef *sparse.Vector
+	var prevA, prevE float64
 	for k := 0; k < cases; k++ {
 		n := g.intn(40) + 1
 		if k%5 == 0 {
@@ -194,6 +197,14 @@ func runC06(h *H) {
 		e := []float64{1e-6, 1e-9, 1e-3}[g.intn(3)]
 		var refCompute *sparse.Vector
 		allSameMV, allSameC, sorted, runs := true, true, true, 0
+		// a second, different operand: results obtained earlier must stay what they were while other
+		// products are being computed (no buffer shared between a published result and a later call)
+		v2 := g.vec(n)
+		if len(v2.Entries) == 0 || vecEqualBits(v2, v) {
+			v2 = cloneVec(p)
+		}
+		ref2 := seqMulVec(ct, v2)
+		var held2 *sparse.Vector
 		for _, procs := range procsList {
 			runtime.GOMAXPROCS(procs)
 			for _, load := range []bool{false, true} {
@@ -218,6 +229,19 @@ func runC06(h *H) {
 						}(q)
 					}
 					cw.Wait()
+					// another product, with a different operand, before the results above are looked at
+					o2 := &sparse.Vector{}
+					if err := o2.MulVec(context.Background(), ct, v2); err != nil {
+						panic(err)
+					}
+					if held2 != nil && !vecEqualBits(held2, ref2) {
+						allSameMV = false // a result published earlier changed afterwards
+						g.count("earlier-result-changed")
+					}
+					if !vecEqualBits(o2, ref2) {
+						allSameMV = false
+					}
+					held2 = o2
 					for _, out := range res {
 						runs++
 						if !vecEqualBits(out, ref) {
@@ -232,7 +256,22 @@ func runC06(h *H) {
 				}
 				if r := reps / 3; r > 0 {
 					for i := 0; i < r; i++ {
+						// a second Compute on DIFFERENT inputs runs concurrently (no state shared between calls)
+						var ow sync.WaitGroup
+						var tOther *sparse.Vector
+						if prevC != nil {
+							ow.Add(1)
+							go func() {
+								defer ow.Done()
+								tOther, _ = basic.Compute(context.Background(), prevC, prevP, prevA, prevE, basic.WithMaxIterations(200))
+							}()
+						}
 						t, err := basic.Compute(context.Background(), c, p, a, e, basic.WithMaxIterations(200))
+						ow.Wait()
+						if prevC != nil && (tOther == nil || !vecEqualBits(tOther, prevRef)) {
+							allSameC = false
+							g.count("concurrent-compute-on-other-inputs-differs")
+						}
 						if err != nil {
 							panic(err)
 						}
@@ -250,6 +289,9 @@ func runC06(h *H) {
 			}
 		}
 		runtime.GOMAXPROCS(old)
+		if refCompute != nil && n <= 300 {
+			prevC, prevP, prevA, prevE, prevRef = cloneCSR(c), cloneVec(p), a, e, cloneVec(refCompute)
+		}
 		inputsSame := csmEqualBits(&c.CSMatrix, &cIn.CSMatrix) && csmEqualBits(&ct.CSMatrix, &ctIn.CSMatrix) &&
 			vecEqualBits(v, vIn) && vecEqualBits(p, pIn)
 		g.count(fmt.Sprintf("runs:%d", runs))
